@@ -768,11 +768,38 @@ func r17b(c *core.Ctx) {
 	check := func(v ssa.Value, where string, pos token.Pos, fn *ssa.Function) {
 		ok := true
 		var desc []string
-		for _, o := range core.Origins(boundOrSelf(v), core.OriginOpts{}) {
+		seenFn := map[*ssa.Function]bool{}
+		through := func(cc *ssa.Call, idx int) []ssa.Value {
+			if core.CallName(cc) == "(*crypto/tls.Config).Clone" {
+				return []ssa.Value{cc.Call.Args[0]}
+			}
+			f := core.StaticCallee(cc)
+			if f == nil || f.Pkg == nil || !core.IsModule(f.Pkg.Pkg) || f.Blocks == nil || seenFn[f] || !strings.HasSuffix(core.TypeName(cc.Type()), "tls.Config") {
+				return nil
+			}
+			seenFn[f] = true
+			var vs []ssa.Value
+			for _, ret := range returnsOf(f) {
+				if rs := core.ReturnResults(ret); idx < len(rs) {
+					vs = append(vs, rs[idx])
+				}
+			}
+			return vs
+		}
+		for _, o := range core.Origins(boundOrSelf(v), core.OriginOpts{Prog: c.Prog, ThroughPar: true, Depth: 2, ThroughCall: through}) {
 			e := core.Expr(o)
 			desc = append(desc, e)
+			isOptTLS := false
+			if ld, isLd := o.(*ssa.UnOp); isLd {
+				if fa, isFA := ld.X.(*ssa.FieldAddr); isFA && core.FieldAddrRef(fa).String() == "Opt.TLSConfig" {
+					isOptTLS = true
+				}
+			}
+			if fv, isF := o.(*ssa.Field); isF && core.FieldValRef(fv).String() == "Opt.TLSConfig" {
+				isOptTLS = true
+			}
 			switch {
-			case e == "opt.TLSConfig" || e == "opt.TLSConfig.Clone()":
+			case isOptTLS:
 			case strings.HasPrefix(e, "new(tls.Config)") || strings.HasPrefix(e, "&tlsConfig") || e == "new(Config)":
 				// fresh config only when none was given
 			case core.IsNilConst(o):
@@ -819,20 +846,46 @@ func r17c(c *core.Ctx) {
 		return
 	}
 	n := 0
-	core.EachInstr(nu, func(b *ssa.BasicBlock, _ int, in ssa.Instruction) {
-		st, ok := in.(*ssa.Store)
-		if !ok {
-			return
+	for _, hf := range helperReach(nu, 1) {
+		if hf.Parent() != nil {
+			continue
 		}
-		fa, ok := st.Addr.(*ssa.FieldAddr)
-		if !ok || core.FieldAddrRef(fa).Name != "ServerName" {
-			return
+		sites := 1
+		if hf != nu {
+			sites = len(callsOfFn(nu, hf))
 		}
-		n++
-		e := core.Expr(st.Val)
-		c.Check(strings.HasPrefix(e, "upstream.tryRemovePort(upstream.tryTrimIpv6Brackets(") && strings.Contains(e, ".Host"), fmt.Sprintf("sni-from-url-host#%d", n), st.Pos(), nu, "the default server name is the URL host without brackets and port", e)
-		c.Check(hasCond(b, ".ServerName) == 0)", true), fmt.Sprintf("sni-only-if-unset#%d", n), st.Pos(), nu, "the server name is defaulted only when the configuration did not set one", condList(b))
-	})
+		core.EachInstr(hf, func(b *ssa.BasicBlock, _ int, in ssa.Instruction) {
+			st, ok := in.(*ssa.Store)
+			if !ok {
+				return
+			}
+			fa, ok := st.Addr.(*ssa.FieldAddr)
+			if !ok || core.FieldAddrRef(fa).String() != "Config.ServerName" {
+				return
+			}
+			n += sites
+			e := core.Expr(st.Val)
+			// tryRemovePort(X) with every origin of X (through a helper's parameter) = tryTrimIpv6Brackets(<url>.Host)
+			good := false
+			if rp, isCall := st.Val.(*ssa.Call); isCall && strings.HasSuffix(core.CallName(rp), "upstream.tryRemovePort") {
+				good = true
+				cnt := 0
+				for _, o := range core.Origins(rp.Call.Args[0], core.OriginOpts{Prog: c.Prog, ThroughPar: true, Depth: 2}) {
+					cnt++
+					tc, isTrim := o.(*ssa.Call)
+					if !isTrim || !strings.HasSuffix(core.CallName(tc), "upstream.tryTrimIpv6Brackets") || !strings.HasSuffix(core.Expr(tc.Call.Args[0]), ".Host") {
+						good = false
+						e += " <- " + core.Expr(o)
+					}
+				}
+				if cnt == 0 {
+					good = false
+				}
+			}
+			c.Check(good, fmt.Sprintf("sni-from-url-host#%d", n), st.Pos(), hf, "the default server name is the URL host without brackets and port", e)
+			c.Check(hasCond(b, ".ServerName) == 0)", true), fmt.Sprintf("sni-only-if-unset#%d", n), st.Pos(), hf, "the server name is defaulted only when the configuration did not set one", condList(b))
+		})
+	}
 	if n < 2 {
 		c.Unknown("sni-sites", nu.Pos(), nu, "the tls and quic arms default the server name", fmt.Sprint(n))
 	}
@@ -1145,21 +1198,193 @@ func r17f(c *core.Ctx) {
 			c.Check(ok, "dial-uses-getDialAddr:"+core.FuncName(f), call.Pos(), f, "every dial uses the address computed by getDialAddr (URL host with default port, or the dial_addr override)", strings.Join(desc, "; "))
 		}
 	}
-	// getDialAddr: prefers dialAddr, keeps @… verbatim, joins the default port when none
-	for i, ret := range returnsOf(gd) {
-		e := core.Expr(ret.Results[0])
-		b := ret.Block()
-		override := hasCond(b, "(len(dialAddr) > 0)", true)
-		var ok bool
-		switch {
-		case override && hasCond(b, "strings.HasPrefix(dialAddr, \"@\")", true):
-			ok = e == "dialAddr"
-		case override:
-			ok = e == "dialAddr" && hasCond(b, ") == 0)", false) || e == "net.JoinHostPort(upstream.trySplitHostPort(dialAddr)#0, defaultPort)" && hasCond(b, ") == 0)", true)
-		default:
-			ok = e == "urlAddr" && hasCond(b, ") == 0)", false) || e == "net.JoinHostPort(upstream.trySplitHostPort(urlAddr)#0, defaultPort)" && hasCond(b, ") == 0)", true)
+	// getDialAddr(url, dial, port): prefers the override, keeps @… verbatim, joins the default port when none. Decided per
+	// returned value and per way it can arise (phi edges carry the conditions of their predecessor): parameters are
+	// identified by position, conditions by structure.
+	if len(gd.Params) == 3 {
+		pURL, pDial, pPort := gd.Params[0], gd.Params[1], gd.Params[2]
+		type cnd = struct {
+			Cond ssa.Value
+			Val  bool
 		}
-		c.Check(ok, fmt.Sprintf("getDialAddr-return#%d", i+1), ret.Pos(), gd, "getDialAddr returns the override (verbatim for @…, with default port when it has none) or the URL host likewise", e+" under "+condList(b))
+		// dialGiven: +1 when `len(dial) > 0` is known true, -1 when known false, 0 unknown
+		dialGiven := func(cs []cnd) int {
+			for _, x := range cs {
+				cm, ok := core.CmpOf(x.Cond)
+				if !ok {
+					continue
+				}
+				truth := x.Val != cm.Neg
+				isLenDial := func(v ssa.Value) bool {
+					call, ok := v.(*ssa.Call)
+					if !ok {
+						return false
+					}
+					bi, ok := call.Call.Value.(*ssa.Builtin)
+					return ok && bi.Name() == "len" && call.Call.Args[0] == ssa.Value(pDial)
+				}
+				zero := func(v ssa.Value) bool { k, ok := core.ConstInt(v); return ok && k == 0 }
+				switch {
+				case cm.Op == "<" && zero(cm.XV) && isLenDial(cm.YV): // 0 < len(dial)
+					if truth {
+						return 1
+					}
+					return -1
+				case cm.Op == "==" && (zero(cm.XV) && isLenDial(cm.YV) || zero(cm.YV) && isLenDial(cm.XV)):
+					if truth {
+						return -1
+					}
+					return 1
+				}
+			}
+			return 0
+		}
+		isUnix := func(cs []cnd) int {
+			for _, x := range cs {
+				if call, ok := x.Cond.(*ssa.Call); ok && core.CallName(call) == "strings.HasPrefix" && call.Call.Args[0] == ssa.Value(pDial) {
+					if s, ok := core.ConstString(call.Call.Args[1]); ok && s == "@" {
+						if x.Val {
+							return 1
+						}
+						return -1
+					}
+				}
+			}
+			return 0
+		}
+		// portEmpty(split): +1 when len(split#1) == 0 known true, -1 known false
+		portEmpty := func(cs []cnd, split *ssa.Call) int {
+			for _, x := range cs {
+				cm, ok := core.CmpOf(x.Cond)
+				if !ok || cm.Op != "==" {
+					continue
+				}
+				truth := x.Val != cm.Neg
+				isLenPort := func(v ssa.Value) bool {
+					call, ok := v.(*ssa.Call)
+					if !ok {
+						return false
+					}
+					bi, ok := call.Call.Value.(*ssa.Builtin)
+					if !ok || bi.Name() != "len" {
+						return false
+					}
+					ex, ok := call.Call.Args[0].(*ssa.Extract)
+					return ok && ex.Tuple == ssa.Value(split) && ex.Index == 1
+				}
+				zero := func(v ssa.Value) bool { k, ok := core.ConstInt(v); return ok && k == 0 }
+				if zero(cm.XV) && isLenPort(cm.YV) || zero(cm.YV) && isLenPort(cm.XV) {
+					if truth {
+						return 1
+					}
+					return -1
+				}
+			}
+			return 0
+		}
+		// ways(v, cs): the parameter leaves v can be, each with the conditions under which it is that leaf
+		type way struct {
+			leaf ssa.Value
+			cs   []cnd
+		}
+		var ways func(v ssa.Value, cs []cnd, d int) []way
+		ways = func(v ssa.Value, cs []cnd, d int) []way {
+			if phi, ok := v.(*ssa.Phi); ok && d < 4 {
+				var out []way
+				for k, e := range phi.Edges {
+					pred := phi.Block().Preds[k]
+					ecs := append(append([]cnd{}, cs...), core.CondsAt(pred)...)
+					// the edge itself: pred ends in an If and the phi's block is one of its two successors
+					if iff, isIf := pred.Instrs[len(pred.Instrs)-1].(*ssa.If); isIf && pred.Succs[0] != pred.Succs[1] {
+						ecs = append(ecs, cnd{iff.Cond, pred.Succs[0] == phi.Block()})
+					}
+					out = append(out, ways(e, ecs, d+1)...)
+				}
+				return out
+			}
+			return []way{{v, cs}}
+		}
+		// chosen(v, cs): v is the preferred address under cs: the override when given, else the URL host
+		chosen := func(v ssa.Value, cs []cnd) (bool, string) {
+			for _, w := range ways(v, cs, 0) {
+				switch {
+				case w.leaf == ssa.Value(pDial):
+					if dialGiven(w.cs) != 1 {
+						return false, "the override is used without `len(override) > 0`"
+					}
+				case w.leaf == ssa.Value(pURL):
+					if dialGiven(w.cs) != -1 {
+						return false, "the URL host is used although an override may be given"
+					}
+				default:
+					return false, "address from " + core.Expr(w.leaf)
+				}
+			}
+			return true, ""
+		}
+		for i, ret := range returnsOf(gd) {
+			cs := core.CondsAt(ret.Block())
+			e := core.Expr(ret.Results[0])
+			ok, why := false, ""
+			for _, w := range ways(ret.Results[0], cs, 0) {
+				ok, why = false, ""
+				if join, isCall := w.leaf.(*ssa.Call); isCall && core.CallName(join) == "net.JoinHostPort" {
+					// JoinHostPort(split(A)#0, port) when split(A)#1 is empty, A the chosen address, not a unix override
+					hostEx, isEx := join.Call.Args[0].(*ssa.Extract)
+					if !isEx || hostEx.Index != 0 || join.Call.Args[1] != ssa.Value(pPort) {
+						why = "joins " + core.Expr(join.Call.Args[0]) + " and " + core.Expr(join.Call.Args[1])
+						break
+					}
+					split, isSplit := hostEx.Tuple.(*ssa.Call)
+					if !isSplit || !strings.HasSuffix(core.CallName(split), "upstream.trySplitHostPort") {
+						why = "host not from trySplitHostPort"
+						break
+					}
+					if portEmpty(w.cs, split) != 1 {
+						why = "default port joined although the address may have a port"
+						break
+					}
+					if okC, whyC := chosen(split.Call.Args[0], core.CondsAt(split.Block())); !okC {
+						why = whyC
+						break
+					}
+					if dialGiven(core.CondsAt(split.Block())) == 1 && isUnix(core.CondsAt(split.Block())) != -1 && len(ways(split.Call.Args[0], nil, 0)) == 1 {
+						why = "a unix override may get a port"
+						break
+					}
+					ok = true
+					continue
+				}
+				// a verbatim address: the unix override, or the chosen address that already has a port
+				if w.leaf == ssa.Value(pDial) && dialGiven(w.cs) == 1 && isUnix(w.cs) == 1 {
+					ok = true
+					continue
+				}
+				if okC, whyC := chosen(w.leaf, w.cs); !okC {
+					why = whyC
+					break
+				}
+				// it has a port: some trySplitHostPort of the same value reported a non-empty port on the way here
+				hasPort := false
+				for _, call := range core.Calls(gd) {
+					if sp, isCall := call.(*ssa.Call); isCall && strings.HasSuffix(core.CallName(sp), "upstream.trySplitHostPort") && portEmpty(w.cs, sp) == -1 {
+						for _, w2 := range ways(sp.Call.Args[0], core.CondsAt(sp.Block()), 0) {
+							if w2.leaf == w.leaf {
+								hasPort = true
+							}
+						}
+					}
+				}
+				if !hasPort {
+					why = "returned verbatim although it may lack a port"
+					break
+				}
+				ok = true
+			}
+			c.Check(ok, fmt.Sprintf("getDialAddr-return#%d", i+1), ret.Pos(), gd, "getDialAddr returns the override (verbatim for @…, with default port when it has none) or the URL host likewise", e+": "+why+" under "+condList(ret.Block()))
+		}
+	} else {
+		c.Unknown("getDialAddr-shape", gd.Pos(), gd, "getDialAddr(url, override, defaultPort)", "unexpected parameter list")
 	}
 	// helper schemes
 	helper := 0
